@@ -185,7 +185,7 @@ func runC11(tier string, seed uint64) {
 		// writes commit: the window read is the window asked for
 		if st.Backend != nil && st.Ext == nil {
 			data := c11Body(4097)
-			for _, rg := range []gofakes3.ObjectRangeRequest{{Start: 10, End: 15}, {Start: 3000, End: 4096}, {Start: 100, FromEnd: true, End: 100}} {
+			for ri, rg := range []gofakes3.ObjectRangeRequest{{Start: 10, End: 15}, {Start: 3000, End: 4096}, {Start: 100, FromEnd: true, End: 100}, {Start: 2000, End: 4000}, {Start: 5, End: 4090}} {
 				rq := rg
 				o, err := st.Backend.GetObject(bucket, "obj4097", &rq)
 				if err != nil || o == nil || o.Range == nil {
@@ -200,8 +200,19 @@ func runC11(tier string, seed uint64) {
 					do(h, Req{Method: "GET", Path: fmt.Sprintf("/%s/filler-%d", bucket, i), Header: [][2]string{{"Range", fmt.Sprintf("bytes=%d-%d", i, i+5+i*2000)}}})
 					do(h, Req{Method: "GET", Path: "/" + bucket + "/obj4097", Header: [][2]string{{"Range", fmt.Sprintf("bytes=%d-%d", 200*i, 200*i+50)}}})
 				}
+				// ... and while the object itself is overwritten (by a shorter body, by other bytes of the same length):
+				// the read goes on with the entity it was answered from
+				switch ri {
+				case 3:
+					do(h, Req{Method: "PUT", Path: "/" + bucket + "/obj4097", Body: []byte("a much shorter body")})
+				case 4:
+					do(h, Req{Method: "PUT", Path: "/" + bucket + "/obj4097", Body: bytes.Repeat([]byte("OTHER"), 820)[:4097]})
+				}
 				got, rerr := readAllGuarded(o.Contents)
 				o.Contents.Close()
+				if ri >= 3 {
+					do(h, Req{Method: "PUT", Path: "/" + bucket + "/obj4097", Body: data})
+				}
 				want := data[o.Range.Start : o.Range.Start+o.Range.Length]
 				for i := 0; i < 12; i++ {
 					do(h, Req{Method: "DELETE", Path: fmt.Sprintf("/%s/filler-%d", bucket, i)})
